@@ -341,7 +341,7 @@ var _ = math.Abs
 
 func init() {
 	registerCases[c02Case]("C02", "exploration",
-		"image alphabet (14 pictures: sizes 1x1..100x3, opaque/binary/graded/noisy/fully transparent alpha, flat..noise) x EncoderOptions with at most D fields (coupled groups count once) away from DefaultOptions(), D=2 quick / 3 thorough, each field over its menu of valid values (21 fields, 66 non-default values); oracle = strict RIFF/VP8/VP8L validator + agreement of this package's decoder with the independent decoder",
+		"image alphabet (14 pictures: sizes 1x1..100x3, opaque/binary/graded/noisy/fully transparent alpha, flat..noise) x EncoderOptions with at most D fields (coupled groups count once) away from DefaultOptions(), D=2 quick / 3 thorough, each field over its menu of valid values (21 fields, 66 non-default values), plus every number of distinct colours 1..260 (lossless) and of alpha levels 1..256 (lossy) on a 20x20 noise layout x Quality{default,0,1,50,100} x Method{default,0,1,2,3,5,6}; oracle = strict RIFF/VP8/VP8L validator + agreement of this package's decoder with the independent decoder",
 		[]string{"worker count pinned to 1, pools never reuse", "independent decoder: vendored golang.org/x/image vp8/vp8l + reference ALPH decoder", "validator written from the container specification"},
 		func(e *fw.Env) int {
 			if e.Quick() {
@@ -356,6 +356,31 @@ func init() {
 			}
 			return func(c *choice.Ctx) caseI {
 				cs := &c02Case{Seed: e.Seed, Dev: map[string]int{}}
+				if c.PickFree(2, "part") == 1 {
+					// alphabet-size sweep: every number of distinct colours 1..260 (lossless) and every number
+					// of alpha levels 1..256 (lossy + compressed alpha plane) on a 20x20 noise layout: the number
+					// of used symbols shapes every code-length table the encoder writes
+					n := 1 + c.PickFree(260, "symbols")
+					if c.PickFree(2, "kind") == 0 {
+						cs.Img = c02Img{20, 20, fmt.Sprintf("k%d", n), "opaque"}
+						cs.Dev["Lossless"] = 1
+					} else {
+						if n > 256 {
+							n = 256
+						}
+						cs.Img = c02Img{20, 20, "flat", fmt.Sprintf("lv%d", n)}
+					}
+					for _, name := range []string{"Quality", "Method"} {
+						for _, f := range c02Fields {
+							if f.name == name {
+								if i := c.PickFree(len(f.vals), name); i > 0 {
+									cs.Dev[name] = i
+								}
+							}
+						}
+					}
+					return cs
+				}
 				cs.Img = images[c.PickFree(len(images), "img")]
 				for _, f := range c02Fields {
 					if i := c.Pick(len(f.vals), f.name); i > 0 {
